@@ -339,9 +339,14 @@ class PoolOpsFamily(common.Family):
     n = rng.choice([1, 2, 3])
     cfg = {
         'workers': n,
-        'ops': [{'op': rng.choice(['run', 'run', 'call_and_wait']),
+        # as_completed: a stream of `n` tasks of which the caller takes `take`
+        # and then closes the generator (take == n: consumed to the end)
+        'ops': [{'op': rng.choice(['run', 'run', 'call_and_wait',
+                                   'as_completed']),
                  'fail': rng.random() < 0.4,
-                 'i': rng.randrange(10)} for _ in range(rng.randrange(1, 4))],
+                 'i': rng.randrange(10),
+                 'n': rng.randrange(1, 5), 'take': rng.randrange(0, 5)}
+                for _ in range(rng.randrange(1, 4))],
         'call_timeout': 5, 'hb': 120, 'plan': [], 'timed': [],
         'sim': {'fine': rng.random() < 0.15,
                 'stay': rng.choice([0.0, 0.5, 0.8])},
@@ -399,6 +404,19 @@ class PoolOpsFamily(common.Family):
       try:
         if op['op'] == 'run':
           r = pool.run(task)
+        elif op['op'] == 'as_completed':
+          from ml_metrics._src.chainables import orchestrate
+          n = op.get('n', 1)
+          tasks = [lazy_fns.trace(L.task_fn)(
+              op['i'] + t, fail=op['i'] if op['fail'] else None)
+                   for t in range(n)]
+          gen = orchestrate.as_completed(pool, tasks)
+          r = []
+          for x in gen:
+            if len(r) >= op.get('take', n):
+              break
+            r.append(x)
+          gen.close()
         else:
           r = pool.call_and_wait(task)
         end = ['ok', repr(r)]
@@ -431,7 +449,8 @@ class PoolOpsFamily(common.Family):
           res.append(v('pool-ops', sig,
                        f"{rec['op']} {how} ({rec['end']}) and leaves "
                        f"{rec['acquired']} acquired"))
-      if op['fail'] and rec['end'][0] != 'exc':
+      if op['fail'] and rec['end'][0] != 'exc' and not (
+          op['op'] == 'as_completed' and op.get('take', 9) < op.get('n', 1)):
         res.append(v('pool-ops', f"error-swallowed:{rec['op']}", f'{rec}'))
     return res
 
